@@ -353,9 +353,11 @@ func runKeyfile(k *kernel.K) {
 	var werr error
 	if site, val, p := guard(func() { werr = keystore.EncryptAndWriteToFile(s.path, s.priv, s.pw) }); p {
 		k.Violate(prop, "panic", "panic@"+site, "EncryptAndWriteToFile panicked: %v at %s", val, site)
+		k.Stop()
 	}
 	if werr != nil {
 		k.Violate(prop, "round-trip", "encrypt-and-write-failed", "EncryptAndWriteToFile failed for a valid %s key: %v", s.typ, werr)
+		k.Stop()
 	}
 	s.orig, err = os.ReadFile(s.path)
 	if err != nil {
@@ -388,14 +390,24 @@ func runKeyfile(k *kernel.K) {
 	}
 	k.Nontriv = true
 	if len(s.pending) > 0 {
-		best := s.pending[0]
-		for _, p := range s.pending[1:] {
-			if p.prio < best.prio {
-				best = p
+		// report in priority order (different key, accepted tampering, round trip, panic). Violate stops the
+		// run at the first class that is not a known finding marked "continue"; for those it returns and
+		// the next class is reported, so a known crash cannot hide a different-key result of the same scenario.
+		order := append([]pend{}, s.pending...)
+		for i := 1; i < len(order); i++ {
+			for j := i; j > 0 && order[j].prio < order[j-1].prio; j-- {
+				order[j], order[j-1] = order[j-1], order[j]
 			}
 		}
-		k.Event("violations", "%d oracle failures in this scenario; reporting: %s/%s", len(s.pending), best.oracle, best.class)
-		k.Violate(prop, best.oracle, best.class, "%s [scheme=%s password#%d]", best.msg, s.typ, pwIx)
+		k.Event("violations", "%d oracle failures in this scenario; first by priority: %s/%s", len(order), order[0].oracle, order[0].class)
+		seen := map[string]bool{}
+		for _, p := range order {
+			if seen[p.oracle+"/"+p.class] {
+				continue
+			}
+			seen[p.oracle+"/"+p.class] = true
+			k.Violate(prop, p.oracle, p.class, "%s [scheme=%s password#%d]", p.msg, s.typ, pwIx)
+		}
 	}
 }
 
